@@ -254,3 +254,75 @@ pub fn mobility_one(kind: usize, side: u8) {
     std::mem::forget(g);
     std::mem::forget(gm);
 }
+
+// ---------------------------------------------------------------------------------------
+// composition lemma: the evaluation IS the blend of the sum of the four terms (the step the per-term lemmas rely on)
+// ---------------------------------------------------------------------------------------
+use crate::chess::game::Game;
+static mut TERMS: [(i16, i16); 3] = [(0, 0); 3];
+/// the three computed terms as uninterpreted functions of the game: each returns one arbitrary (but fixed) packed value
+pub fn stub_material<const TRACE: bool>(_g: &Game, _t: &mut ea::Trace) -> PhasedEval { let (a, b) = unsafe { TERMS[0] }; PhasedEval::new(a, b) }
+pub fn stub_mobility<const TRACE: bool>(_g: &Game, _t: &mut ea::Trace) -> PhasedEval { let (a, b) = unsafe { TERMS[1] }; PhasedEval::new(a, b) }
+pub fn stub_pawns<const TRACE: bool>(_g: &Game, _t: &mut ea::Trace) -> PhasedEval { let (a, b) = unsafe { TERMS[2] }; PhasedEval::new(a, b) }
+
+/// For ANY accumulator content and ANY values of the material, mobility/king-safety and pawn-structure terms, the real
+/// `absolute_eval` / `eval` equal `for_phase(accumulators + material + mobility + pawns, phase)` seen from the side to move:
+/// no term is skipped, scaled or made to depend on who is ahead. (Natively the three terms are the real functions; the replay
+/// prints the position and compares against the same composition of the real terms.)
+#[kani::proof]
+#[kani::stub(crate::engine::eval::material::eval, stub_material)]
+#[kani::stub(crate::engine::eval::mobility_and_king_safety::eval, stub_mobility)]
+#[kani::stub(crate::engine::eval::pawn_structure::eval, stub_pawns)]
+pub fn c16_compose() {
+    load_tables();
+    let p = pos::any_valid();
+    let (mg, eg, phase): (i16, i16, i16) = (kani::any(), kani::any(), kani::any());
+    kani::assume(mg > -12000 && mg < 12000 && eg > -12000 && eg < 12000 && phase >= 0 && phase <= 88);
+    let mut i = 0;
+    while i < 3 {
+        let (a, b): (i16, i16) = (kani::any(), kani::any());
+        kani::assume(a > -4000 && a < 4000 && b > -4000 && b < 4000);
+        unsafe { TERMS[i] = (a, b); }
+        i += 1;
+    }
+    #[cfg(test)]
+    {
+        // native replay: the three terms are the real functions and the accumulators are what init() gives for the position, so the
+        // stub-world values cannot be imposed. The counterexample's position, the same position with either side stripped to its
+        // king, and a few lopsided fixed positions are evaluated; the first one where the evaluation is not the blend of the sum
+        // of its real terms is reported (each is a valid position with its real accumulators: a native failure is genuine).
+        let strip = |q: &BPos, c: usize| { let mut r = *q; let mut k = 0; while k < 5 { r.pcs[c][k] = 0; k += 1; } r.rights = [[false; 2]; 2]; r.ep = 64; r };
+        let mut cands = vec![p, strip(&p, 0), strip(&p, 1)];
+        for f in ["4k3/8/8/8/8/8/8/QQ2K3 w - - 0 1", "qq2k3/8/8/8/8/8/8/4K3 b - - 0 1", "4k3/8/8/8/8/8/8/QQ2K3 b - - 0 1", "qq2k3/8/8/8/8/8/8/4K3 w - - 0 1",
+                  "k7/pppppppp/8/8/8/8/QQQQQQQQ/KQRRBBNN w - - 0 1", "kqrrbbnn/qqqqqqqq/8/8/8/8/PPPPPPPP/K7 b - - 0 1"] {
+            cands.push(pos::bpos_of_bitboards(&Game::from_fen(f).unwrap()));
+        }
+        for q in cands {
+            if !pos::valid(&q) { continue; }
+            let mut g = pos::game_of(&q);
+            g.incremental_eval = IncrementalEvalFields::init(&g.board);
+            let mut t = ea::Trace::new();
+            let sum = g.incremental_eval.piece_square_tables + ea::material_eval::<false>(&g, &mut t) + ea::mobility_eval::<false>(&g, &mut t) + ea::pawn_eval::<false>(&g, &mut t);
+            let want = sum.for_phase(g.incremental_eval.phase_value);
+            let got = eval::absolute_eval(&g);
+            if got != want || eval::eval(&g) != eval::Eval::from_white_eval(want, g.player) {
+                println!("REPLAY-CASE {{\"fen\":\"{}\",\"eval\":{},\"blend_of_sum_of_terms\":{}}}", pos::fen_of(&q), got.0, want.0);
+                panic!("evaluation is not the blend of the sum of its terms");
+            }
+        }
+        return;
+    }
+    #[allow(unreachable_code)]
+    let mut g = pos::game_of(&p);
+    g.incremental_eval = IncrementalEvalFields { phase_value: phase, piece_square_tables: PhasedEval::new(mg, eg) };
+    let mut t = ea::Trace::new();
+    let sum = g.incremental_eval.piece_square_tables + ea::material_eval::<false>(&g, &mut t) + ea::mobility_eval::<false>(&g, &mut t) + ea::pawn_eval::<false>(&g, &mut t);
+    let want = sum.for_phase(phase);
+    let got = eval::absolute_eval(&g);
+    assert!(got == want);
+    let mover = eval::eval(&g);
+    assert!(mover == eval::Eval::from_white_eval(want, g.player));
+    kani::cover!(want.0 > 1500);
+    kani::cover!(want.0 < -1500);
+    std::mem::forget(g);
+}
